@@ -251,9 +251,11 @@ const c19TickDur = 25 * time.Minute
 
 var c19Base = time.Date(2024, 5, 1, 8, 0, 0, 0, time.UTC)
 
-func c19Eid(e string) string   { return "https://sp-" + e + ".example.com/saml/metadata" }
-func c19Acs(e string) string   { return "https://sp-" + e + ".example.com/saml/acs" }
-func c19Pw(p string) string    { return map[string]string{"p1": "correct-horse-1", "p2": "battery-staple-2"}[p] }
+func c19Eid(e string) string { return "https://sp-" + e + ".example.com/saml/metadata" }
+func c19Acs(e string) string { return "https://sp-" + e + ".example.com/saml/acs" }
+func c19Pw(p string) string {
+	return map[string]string{"p1": "correct-horse-1", "p2": "battery-staple-2", "e": ""}[p]
+}
 func c19Email(u string, v int) string { return fmt.Sprintf("%s.v%d@example.com", u, v) }
 
 func c19EidOf(s string) string {
@@ -742,6 +744,8 @@ func TestC19(t *testing.T) {
 	snaps := map[string]*c19Snap{initKey: {data: map[string]string{}, slot: map[int]string{}}}
 	var snapMu sync.Mutex
 	done := map[string]bool{}
+	fallback := map[string]*c19Snap{}
+	unfaithful := 0
 	frontier := []string{initKey}
 	executed, unreached := 0, 0
 	faultRuns := 0
@@ -844,6 +848,15 @@ func TestC19(t *testing.T) {
 				same := post.key() == want.key() && fmt.Sprint(liveReg) == fmt.Sprint(want.regSet())
 				if !same {
 					rep.DriftCase(key, "post-state differs from the model", map[string]any{"model": want, "real": post, "live_registered": liveReg})
+					// The model is the reference for what the history means (who is registered, what the current
+					// password is); the real server's state is what it is.  If no faithful transition reaches the
+					// model's target state, exploration continues from this real state under the model's target as
+					// reference, so that a state the code cannot represent correctly is still exercised.
+					snapMu.Lock()
+					if _, ok := fallback[want.key()]; !ok {
+						fallback[want.key()] = &c19Snap{data: env.store.clone(), slot: env.snap.slot, ticks: env.snap.ticks}
+					}
+					snapMu.Unlock()
 				} else {
 					snapMu.Lock()
 					if _, ok := snaps[want.key()]; !ok {
@@ -895,12 +908,23 @@ func TestC19(t *testing.T) {
 			})
 		}
 		frontier = next
+		if len(frontier) == 0 {
+			// states no faithful transition reached: continue from the unfaithful real states
+			for k, sn := range fallback {
+				if _, ok := snaps[k]; !ok && !done[k] {
+					snaps[k] = sn
+					frontier = append(frontier, k)
+					unfaithful++
+				}
+			}
+		}
 	}
 	for k := range nodes {
 		if !done[k] {
 			unreached++
 		}
 	}
+	rep.Extra["states_entered_unfaithfully"] = unfaithful
 	rep.Extra["model_states"] = len(nodes)
 	rep.Extra["states_with_concrete_snapshot"] = len(done)
 	rep.Extra["edges_total"] = nEdges
